@@ -360,18 +360,14 @@ Theorem mfl_parse_print_elaborated :
   forall ss : list MflParser.stmt, canonical ss = true ->
     parse_mfl (stringify ss) =
     if allometry_bracketed false (stmts_tokens ss) then Rejected else
-    match elaborate_all ss with
-    | Some ss' => if existsb allometry_missing_ref ss then InternalError else Accepted ss'
-    | None => Rejected
-    end.
+    match elaborate_all ss with Some ss' => Accepted ss' | None => Rejected end.
 Proof. exact parse_mfl_print_lemma. Qed.
 
-(* a grammatical text is only ever answered with an internal error when it holds an ALLOMETRY statement without its
-   (grammatically optional) reference value -- guard conjunct of finding C18-ALLOMETRY-DEFAULT-REF *)
-Theorem mfl_internal_error_only_allometry :
-  forall text : list N, parse_mfl text = InternalError ->
-    exists ss, parse_ref text = Some ss /\ existsb allometry_missing_ref ss = true.
-Proof. exact parse_mfl_internal_error. Qed.
+(* every text is either read or refused, never answered with an internal error (at full strength since fix c794b0d;
+   it needed the guard "no ALLOMETRY statement without reference value", see Refuted.allometry_default_ref_fixed) *)
+Theorem mfl_no_internal_error :
+  forall text : list N, parse_mfl text <> InternalError.
+Proof. exact parse_mfl_never_internal. Qed.
 
 (* ---------------------------------------------------------------- iivsearch / iovsearch brute-force candidates *)
 (* td_exhaustive_block_structure: the candidates are numbered from 1+offset and are exactly the partitions of the eta
